@@ -516,12 +516,18 @@ func (r *runner) seqs(alpha []Op, depth int, f func(ops []Op)) {
 }
 
 func run(c *hl.Ctx) {
-	c.Rule("explicit enumeration of operation sequences on two real Protocol endpoints after the real simple handshake. Families: F1 = all sequences <= d1 over {SetChunkSize n in {1,2,127,128,129,4096,65536,2^31-1}, video message with payload length in {1,c-1,c,c+1,2c,2c+1}} x both directions; F2 = all sequences <= d2 over messages {5 media/command types + 4 control types} x stream id {0,1,2^31-1,2^32-1} x timestamp {0,1,0xFFFFFE,0xFFFFFF,0x1000000,2^31-1} x length {1,c+1}; F3 = SetChunkSize by either side followed by all message pairs of a reduced alphabet. After every operation the peer reads one message (type, stream id, timestamp, payload compared). Read segmentations: whole, 1-byte, every 2-split (all offsets for streams <= 700 B, around every chunk boundary otherwise), 3-splits in thorough. state = canonical reflection dump of both endpoints; transition = one operation. Non-trivial = distinct session read back completely." + hsRule)
+	c.Rule("explicit enumeration of operation sequences on two real Protocol endpoints after the real simple handshake. Families: F1 = all sequences <= d1 over {SetChunkSize n in {1,2,127,128,129,4096,65536,2^31-1}, video message with payload length in {1,c-1,c,c+1,2c,2c+1}} x both directions; F2 = all sequences <= d2 over messages {5 media/command types + 4 control types} x stream id {0,1,2^31-1,2^32-1} x timestamp {0,1,0xFFFFFE,0xFFFFFF,0x1000000,2^31-1} x length {1,c+1}; F3 = SetChunkSize by either side followed by all message pairs of a reduced alphabet. After every operation the peer reads one message (type, stream id, timestamp, payload compared). Read segmentations: whole, 1-byte, every 2-split (all offsets for streams <= 700 B, around every chunk boundary otherwise), 3-splits in thorough. state = canonical reflection dump of both endpoints; transition = one operation. Non-trivial = distinct session read back completely." + hsRule + longRule)
 	c.Assume("messages are created with NewStreamMessage/WritePacket (the library chooses the chunk stream)", "payload bytes are a position-dependent pattern", "Set Chunk Size is announced with WritePacket(SetChunkSize); raw type-1/type-2 messages are outside the alphabet")
+	c.Assume("F5: a sender frames a message with a 12-byte header on its first chunk and 1 byte on every further chunk (timestamps below 0xFFFFFF); the placements of the marks are computed from this framing and from the generated session, not from the library (a library writer that frames differently is counted in long_session_wire_length_differs_from_model, not judged)", "F5: the reference chunker makes the library writer's header choices (type 0, then type 3), so its byte stream is one a library endpoint writes")
 	c.Assume("F4: the in-memory transport makes every written byte available to the next read; the handshake packets are written and read with the library's Handshake methods in the stated program orders")
 	r := &runner{c: c}
 	// F4 first: it is cheap and must not depend on the budget left by the deeper families
 	r.handshakeFamily()
+	if c.Expired() {
+		return
+	}
+	// F5 next: long sessions, bounded cost, independent of the budget left by the deeper families
+	r.longFamily()
 	if c.Expired() {
 		return
 	}
@@ -611,6 +617,14 @@ func replay(c *hl.Ctx, raw json.RawMessage) {
 			panic(err)
 		}
 		replayHS(c, hc)
+		return
+	}
+	if err := json.Unmarshal(raw, &fam); err == nil && fam.Family == longFamily {
+		var lc longCase
+		if err := json.Unmarshal(raw, &lc); err != nil {
+			panic(err)
+		}
+		replayLong(c, lc)
 		return
 	}
 	if err := json.Unmarshal(raw, &cs); err != nil {
